@@ -292,7 +292,7 @@ func TestC14Post(t *testing.T) {
 
 		// the library's reader
 		var back *post.Info
-		if pn := guard.Try(func() { back, err = post.Read(bytes.NewReader(data)) }); pn != nil {
+		if pn := guard.Try(func() { back, err = post.Read(guard.Source(data)) }); pn != nil {
 			fail("Read: %s", pn)
 		}
 		if err != nil {
@@ -406,7 +406,7 @@ func TestC14PostRaw(t *testing.T) {
 			t.Fatalf("generator: %v", err)
 		}
 		var got *post.Info
-		if pn := guard.Try(func() { got, err = post.Read(bytes.NewReader(data)) }); pn != nil {
+		if pn := guard.Try(func() { got, err = post.Read(guard.Source(data)) }); pn != nil {
 			t.Fatalf("post table index=%v strings=%q: Read: %s", p.Index, p.Strings, pn)
 		}
 		if err != nil {
